@@ -145,22 +145,34 @@ class C17(Prop):
             "real cases: TTNS+TTNO with the real SandwichCache.init_cache_but_one contraction; malformed: unknown "
             "identifiers (both sides must reject). non-trivial = at least 3 nodes; distinct by case content")
     clauses = [
-        ("F", "linearise: permutation of the nodes, every child before its parent, root last (C17_linearise_*)"),
-        ("F", "find_path_to_root: starts at the node, ends at the root, consecutive entries child->parent (C17_root_path_spec)"),
-        ("F", "path_from_to (literal model: duplicate count, [:-n+1] slice): starts at a, ends at b, consecutive entries adjacent, "
-              "no repetition; path a a = [a]; defined for all node pairs (C17_path_from_to_spec, C17_path_self, C17_path_defined)"),
-        ("F", "distance_to_node(root): keys = all nodes in pre-order, value = len(path)-1 (C17_root_distance_spec)"),
-        ("F", "subtree / leaves / subtree size agree with the structural definitions (C17_subtree_*, C17_leaves_*, C17_sub_size)"),
-        ("F", "update path: permutation of the node set; head = first deepest node in pre-order, a leaf (C17_update_path_perm, C17_update_path_start)"),
-        ("I", "bounded (all rooted ordered trees with <= N nodes, pre-order labelled, kernel-checked by vm_compute): update path ends "
-              "at a node of degree <= 1; no edge crossed more than twice; cache keys = one block per edge, toward update_path[0], "
-              "inputs created first; distance_to_node(c) = len(path)-1 for every centre (C17_*_bounded_N)"),
-        ("V", "exact equality of every modelled query with the implementation on all trees up to the bound, all node pairs "
-              "(lists, dict key orders, cache key order); BFS oracle on the undirected graph"),
+        ("F", "linearise: permutation of the nodes, every child before its parent, root last (C17_linearise_perm, _child_before_parent, _root_last)"),
+        ("F", "find_path_to_root: starts at the node, ends at the root, consecutive entries child->parent, defined exactly on the nodes "
+              "(C17_root_path_spec, C17_root_path_defined)"),
+        ("F", "path_from_to (literal model: duplicate count, [:-n+1] slice with its 0 case): starts at a, ends at b, consecutive entries "
+              "adjacent, no repetition; it is THE tree path (any repetition-free walk along edges from a to b equals it); path a a = [a]; "
+              "defined exactly on node pairs (C17_path_from_to_spec, C17_path_unique, C17_path_self, C17_path_defined)"),
+        ("F", "distance_to_node(c) for every centre c: keys = the node set, value = len(path_from_to c x) - 1; for the root the keys are "
+              "in pre-order (C17_distance_spec, C17_root_distance_spec)"),
+        ("F", "find_subtree_of_node / leaves_under_node / find_subtree_size_of_node / get_leaves / nearest_neighbours agree with the "
+              "structural definitions (C17_subtree_spec, C17_leaves_spec, C17_subtree_size_spec, C17_get_leaves_spec, C17_nearest_neighbours_spec)"),
+        ("F", "update path: permutation of the node set (C17_update_path_perm); head = find_start_node_id = a leaf of maximal depth, the "
+              "first such in pre-order (C17_update_path_start); last node has degree <= 1 (C17_update_path_end)"),
+        ("F", "init_cache_but_one for every left-out node, and for update_path[0]: as unordered pairs the key list is a permutation of the "
+              "edge list (exactly one block per edge); every block (n, m) has m = second node of the path n -> left-out; every block is "
+              "created after the blocks of the other neighbours it is contracted from (C17_cache_keys_spec, C17_tdvp_cache_keys_spec)"),
+        ("I", "BOUNDED, not universal: walking the update path along tree paths crosses no edge more than twice — kernel-evaluated "
+              "(vm_compute) over the enumeration of all 23714 rooted ordered trees with <= 11 nodes, which is proved to contain every tree "
+              "shape up to the bound (C17_update_path_crossings_bounded_11, C17_enumeration_complete); the inductive proof is open"),
+        ("V", "exact equality of every modelled query with the implementation on all rooted ordered trees up to the node bound, all node "
+              "pairs and centres (lists, dict key orders, update path, caching path, next-id dict, cache key order), plus random trees up "
+              "to 40 nodes; independent BFS oracle on the undirected graph; real SandwichCache contraction on TTNS+TTNO"),
     ]
-    trusted_base = ["node identifiers are mapped to natural numbers by the harness (the library uses strings); the node-dictionary "
-                    "order is an explicit input of get_leaves/nearest_neighbours",
-                    "bounded theorems quantify over the Gallina enumeration `trees_upto N` (pre-order labelled shapes)"]
+    trusted_base = ["node identifiers are mapped to natural numbers by the harness (the library uses strings); the key order of the node "
+                    "dictionary is an explicit input of get_leaves/nearest_neighbours",
+                    "find_path_to_root (a while loop over parent pointers) and _path_for_branch_rec (recursion over child identifiers) are "
+                    "modelled by structural recursion over the rtree; the tie checks them on every run",
+                    "the bounded crossing theorem quantifies over pre-order labelled shapes (`trees_upto 11`); invariance under relabelling "
+                    "is validated by the tie (random identifiers), not proved"]
     assumptions = ["identifiers are unique (NoDup (ids t)) — enforced by TreeStructure.ensure_uniqueness"]
 
     # ---------------------------------------------------------------------------------------
